@@ -223,7 +223,9 @@ def run_replay(args):
         rec = json.load(f)
     ctx = common.Ctx(args.id, "quick", args.seed, 0, 1, mod)
     ctx.replaying = True
-    if hasattr(mod, "setup"):
+    if hasattr(mod, "setup_for_subject"):
+        mod.setup_for_subject(ctx, rec["subject"])
+    elif hasattr(mod, "setup"):
         mod.setup(ctx)
     v = common.replay_case(ctx, rec["subject"], common.dec(rec["case"]))
     if v is None:
